@@ -117,7 +117,8 @@ def step_set(ctx, data, doc_text, segs, value, prefix="set", history=None):
         ctx.count("abstain_unaddressable")
         return False
     expected = E.apply_set(img0, sorted(locs), value)
-    case = {"doc": doc_text, "path": ptext, "segs": segs, "value": repr(value), "history": list(history or [])}
+    case = {"doc": doc_text, "path": ptext, "segs": segs, "value": repr(value), "history": list(history or []),
+            "state_before": yp.dump(data) if history else None}
     ctx.evaluations += 1
     ctx.count("set_steps")
     try:
@@ -154,7 +155,8 @@ def step_delete(ctx, data, doc_text, segs, prefix="delete", history=None):
         return False
     if ptext.startswith("/"):
         return False
-    case = {"doc": doc_text, "path": ptext, "segs": segs, "history": list(history or [])}
+    case = {"doc": doc_text, "path": ptext, "segs": segs, "history": list(history or []),
+            "state_before": yp.dump(data) if history else None}
     img0 = E.image(data)
     root = any(p.kind == "root" for p in res)
     ctx.evaluations += 1
@@ -332,7 +334,7 @@ def step_create(ctx, data, doc_text, rng, value, prefix="create", history=None, 
     if ptext.startswith("/"):
         return False
     case = {"doc": doc_text, "path": ptext, "segs": segs, "value": repr(value), "driver": driver,
-            "history": list(history or [])}
+            "history": list(history or []), "state_before": yp.dump(data) if history else None}
     ctx.evaluations += 1
     ctx.count("create_steps")
     try:
